@@ -37,6 +37,7 @@ class E4(object):
         self.value_classes = dict((r["value_cls"], key)
                                   for key, r in self.registries.items())
         self._entry_of = {}
+        self.bookkeeping = set()   # (class, attr): holder bookkeeping accepted by U(a)
         self.retentions = []   # (cls, attr, value_cls, event, path)
         self.evictions = []    # (owner_cls, attr, event, path)
         self._construct_once()
@@ -186,9 +187,17 @@ class E4(object):
     # ------------------------------------------------------------------
     def _collect(self):
         model = self.model
+        from .events import each_event
         for en in model.runtime_entries():
-            for p in model.paths(en):
-                for e, loops in all_events(p):
+            if en == "timer":
+                # the sweep: each event once (its loop alternatives are shared
+                # by all continuations)
+                triples = list(each_event(model, [en], ("setattr", "reg_del")))
+            else:
+                triples = [(p, e, loops) for p in model.paths(en)
+                           for e, loops in all_events(p, ("setattr", "reg_del"))]
+            if True:
+                for (p, e, loops) in triples:
                     if e["k"] == "setattr":
                         obj, v = e["obj"], e["value"]
                         if obj[0] == "obj" and v[0] == "obj" and v[1] in self.value_classes \
@@ -213,10 +222,22 @@ class E4(object):
         return out
 
     # ------------------------------------------------------------------
+    def _created_here(self, e):
+        """the evicted object was created by the get-or-create on this very
+        path (absence test true): nothing else can hold it yet"""
+        from .e3 import pc_truth
+        if e["k"] != "reg_del" or e.get("key") is None:
+            return False
+        t = pc_truth(e["pc"]).get(("cmp", "in", e["key"], e["reg"]))
+        return t is False
+
     def _rule_u(self):
         seen_ev = set()
         for (owner, attr, e, p, loops) in self.evictions:
-            key = e["site"]
+            if self._created_here(e):
+                continue
+            key = (e["site"], tuple(sorted(self._guard_attrs(
+                e, self.registries[(owner, attr)]["value_cls"]))))
             if key in seen_ev:
                 continue
             seen_ev.add(key)
@@ -290,7 +311,11 @@ class E4(object):
                          sorted(guard_attrs), vcls, _site(missing[0]), missing[0]["func"]),
                      defect="D5" if not ok else None)
             if ok:
-                self._check_release(vcls, hcls, hattr, guard_attrs, construct)
+                if self._check_release(vcls, hcls, hattr, guard_attrs, construct):
+                    for a in guard_attrs:
+                        if (self.value_classes.get(vcls), a) and \
+                                (vcls, a) not in self.registries:
+                            self.bookkeeping.add((vcls, a))
             return
         # (b) eviction preceded by notifying every registered holder, whose
         # callback clears the retaining field
@@ -387,6 +412,7 @@ class E4(object):
         self.add("rule_u", construct + " [release on disconnect]", "", ok,
                  "" if ok else "the registration made at the retention site is never "
                  "undone when the connection closes: the object can never be evicted")
+        return ok
 
     def entry_of(self, f):
         """entry point on whose path the eviction of a rule_u finding lies"""
